@@ -274,7 +274,9 @@ func handlePacket(s *Server, p orderedRequest) error {
 		err := os.Rename(s.toLocalPath(p.Oldpath), s.toLocalPath(p.Newpath))
 		rpkt = statusFromError(p.ID, err)
 	case *sshFxpSymlinkPacket:
-		err := os.Symlink(s.toLocalPath(p.Targetpath), s.toLocalPath(p.Linkpath))
+		// The target is the text stored in the link, to be interpreted relative to the link's
+		// own directory when it is resolved: it is not a path of this request and must be kept verbatim.
+		err := os.Symlink(p.Targetpath, s.toLocalPath(p.Linkpath))
 		rpkt = statusFromError(p.ID, err)
 	case *sshFxpClosePacket:
 		rpkt = statusFromError(p.ID, s.closeHandle(p.Handle))
